@@ -56,6 +56,11 @@ impl Suppressions {
     if !node.kind().contains("comment") || !node.text().contains(IGNORE_TEXT) {
       return;
     }
+    // some grammars nest the text in a child (lua: comment > comment_content):
+    // the directive is the outer node, its content is not a second directive
+    if node.parent().is_some_and(|p| p.kind().contains("comment")) {
+      return;
+    }
     let line = node.start_pos().line();
     let suppress_next_line = if let Some(prev) = node.prev() {
       prev.start_pos().line() != line
